@@ -637,30 +637,88 @@ def run_e2e(sc, sizes=(0, 3, 9, 14)):
 
     th = threading.Thread(target=body, daemon=True)
     th.start()
-    th.join(60)
+    th.join(STUCK_S)
     if th.is_alive():
-        return None, f'transfers did not finish within 60 s ({sc})'
+        return None, f'transfers did not finish within {STUCK_S} s: a thread is blocked for ever ({sc})'
     if 'sems' not in result:
         return None, f'manager run crashed ({sc})'
     return result, None
 
 
-def end_to_end(ctx):
-    scs = E2E_SCENARIOS if ctx.thorough() else E2E_SCENARIOS
+STUCK_S = 20
+
+
+def e2e_child():
+    """Child process: run the scenarios given on stdin, one JSON answer per line.
+    (A stuck transfer leaves non-daemon pool threads behind: the child leaves with
+    os._exit, the parent kills it on a time-out.)"""
+    import json
+    import sys
+    common.setup_repo_path()
+    for sc in json.load(sys.stdin):
+        try:
+            res, err = run_e2e(sc)
+        except BaseException as e:   # noqa
+            res, err = None, f'manager run crashed: {e!r}'
+        print(json.dumps({'sc': sc, 'err': err, 'n': res['n'] if res else None,
+                          'sems': [[n, repr(v), repr(w)] for n, v, w in res['sems']] if res else None}), flush=True)
+    sys.stdout.flush()
+    os._exit(0)
+
+
+def run_e2e_isolated(scs):
+    """-> [(scenario, result dict or None, error text or None)]"""
+    import json
+    import subprocess
+    import sys
+    out = []
+    try:
+        p = subprocess.run([sys.executable, '-c', 'from harness.props import c12; c12.e2e_child()'],
+                           input=json.dumps(scs), stdout=subprocess.PIPE, stderr=subprocess.PIPE, text=True,
+                           timeout=STUCK_S * len(scs) + 60, cwd=common.VERIF)
+        lines, errtxt = p.stdout.splitlines(), p.stderr[-600:]
+    except subprocess.TimeoutExpired as e:
+        so = e.stdout or ''
+        lines = (so.decode() if isinstance(so, bytes) else so).splitlines()
+        errtxt = 'child timed out'
+    answers = {}
+    for l in lines:
+        try:
+            j = json.loads(l)
+            answers[json.dumps(j['sc'], sort_keys=True)] = j
+        except ValueError:
+            pass
     for sc in scs:
-        res, err = run_e2e(sc)
+        j = answers.get(json.dumps(sc, sort_keys=True))
+        if j is None:
+            out.append((sc, None, f'end-to-end child gave no answer for {sc}: {errtxt}'))
+        elif j['err']:
+            out.append((sc, None, j['err']))
+        else:
+            out.append((sc, j, None))
+    return out
+
+
+def end_to_end(ctx):
+    last = None
+    for sc, res, err in run_e2e_isolated(E2E_SCENARIOS):
         name = f"{sc['executor']}/{sc['transfer']}/{sc['disturb'] or 'clean'}"
         if err:
-            ctx.report(f'e2e:{name}:stuck', err, {'kind': 'schedule', 'component': 'TransferManager', 'case': dict(sc, kind='e2e')})
+            ctx.report(f'e2e:{name}:stuck', err, {'kind': 'schedule', 'component': 'TransferManager',
+                                                  'case': dict(sc, kind='e2e')})
             continue
         off = [(n, v, w) for (n, v, w) in res['sems'] if v != w]
-        ctx.count('sema-e2e', 1, nontrivial_key=name, executor=sc['executor'], disturb=sc['disturb'] or 'clean')
+        ctx.count('sema-e2e', 1, nontrivial_key=name, executor=sc['executor'], disturb=sc['disturb'] or 'clean',
+                  transfers=res['n'])
+        last = (sc, res)
         if off:
             ctx.report(f'e2e:{name}:' + ','.join(n for n, _, _ in off),
                        f'after {res["n"]} transfers ({name}) and shutdown, semaphores not back at their configured '
-                       f'value: {off}', {'kind': 'schedule', 'component': 'TransferManager', 'case': dict(sc, kind='e2e')})
-    ctx.sample({'component': 'sema-e2e', 'scenario': E2E_SCENARIOS[-1],
-                'semaphores_after_shutdown (name, value, configured)': [list(map(str, x)) for x in res['sems']] if res else None})
+                       f'value (name, value, configured): {off}',
+                       {'kind': 'schedule', 'component': 'TransferManager', 'case': dict(sc, kind='e2e')})
+    if last:
+        ctx.sample({'component': 'sema-e2e', 'scenario': last[0], 'transfers': last[1]['n'],
+                    'semaphores_after_shutdown (name, value, configured)': last[1]['sems']})
 
 
 # ---------------------------------------------------------------- run
@@ -845,7 +903,7 @@ def replay(ctx, data):
         return True
     if kind == 'e2e':
         sc = {k: case[k] for k in ('executor', 'transfer', 'disturb')}
-        res, err = run_e2e(sc)
+        (_, res, err), = run_e2e_isolated([sc])
         if err:
             print(err)
             return True
